@@ -46,6 +46,18 @@ def workers_for_host(tier, host):
 
 
 def cases(plan, tier, shard, nshards, host):
+    if host == common.PRIMARY:
+        # every family of the historical corpus (incl. the versions without an interpreter): read, write, read again - the
+        # writer refuses, or what it wrote reads back to the same content
+        import glob
+
+        n = 0
+        for f in sorted(glob.glob(os.path.join(common.REPO, "test", "bytecode_*", "*.pyc"))):
+            if "dropbox" in f or os.path.getsize(f) > (6000 if tier == "quick" else 100000):
+                continue
+            n += 1
+            if n % nshards == shard:
+                yield {"ver": "corpus", "path": os.path.relpath(f, common.REPO), "progs": []}
     for v in common.REFS:
         if host != common.PRIMARY and v != host:
             continue  # other hosts only contribute the native-object path for their own version
@@ -64,10 +76,14 @@ def cases(plan, tier, shard, nshards, host):
 
 
 def case_key(c):
+    if c["ver"] == "corpus":
+        return "corpus:" + c["path"]
     return "%s:%s:%d" % (c["ver"], c["progs"][0]["id"], len(c["progs"]))
 
 
 def describe(c):
+    if c["ver"] == "corpus":
+        return {"corpus_file": c["path"]}
     return {"version": c["ver"], "programs": [p["id"] for p in c["progs"]][:5], "n": len(c["progs"])}
 
 
@@ -86,6 +102,46 @@ def first_kind_diff(d):
     return "%s:%s->%s" % (tail[0], ek, gk)
 
 
+def run_corpus(case, ctx):
+    import re
+    import shutil
+    import tempfile
+
+    from xdis.load import load_module, write_bytecode_file
+
+    path = os.path.join(common.REPO, case["path"])
+    fam = re.search(r"bytecode_([^/]+)/", case["path"]).group(1)
+    ctx.count("corpus_files")
+    try:
+        r1 = load_module(path)
+    except Exception:
+        ctx.count("corpus_not_loadable")      # C01/C11's business
+        return
+    ver = tuple(r1[0][:2])
+    d = tempfile.mkdtemp(prefix="verif-c13c-")
+    try:
+        outp = os.path.join(d, os.path.basename(path))    # same name: PyPy 3.8 is recognised by its file name
+        try:
+            write_bytecode_file(outp, r1[3], r1[2], r1[1] or 0x5F000000, r1[5] if r1[5] is not None else 0)
+        except Exception as e:
+            ctx.count("corpus_refused")
+            ctx.count("corpus_refused:%s:%s" % (fam, type(e).__name__))
+            return
+        ctx.count("corpus_written")
+        try:
+            r2 = load_module(outp)
+        except Exception as e:
+            ctx.violation("corpus-%s:reread-raises:%s" % (fam, type(e).__name__), "written %s cannot be read back: %r" % (case["path"], str(e)[:150]))
+            return
+        if tuple(r2[0][:2]) != ver or r2[2] != r1[2]:
+            ctx.violation("corpus-%s:reread-version" % fam, "version/magic %s/%s became %s/%s (%s)" % (r1[0], r1[2], r2[0], r2[2], case["path"]))
+        dd = tree_diff(xcanon(r1[3], ver), xcanon(r2[3], ver), nan_loose=(ver < (3, 0)))
+        if dd:
+            ctx.violation("corpus-%s:reread-tree:%s" % (fam, first_kind_diff(dd)), "re-read differs at %s: was %s now %s (%s)" % (dd + (case["path"],)))
+    finally:
+        shutil.rmtree(d, ignore_errors=True)
+
+
 def run_case(case, ctx):
     import shutil
     import tempfile
@@ -99,6 +155,8 @@ def run_case(case, ctx):
         if tree_diff(a, b):
             ctx.violation("canary-detected", "text vs bytes constant is a difference")
         return
+    if case["ver"] == "corpus":
+        return run_corpus(case, ctx)
     v = case["ver"]
     ver = common.vt(v)
     vtag = v
